@@ -75,4 +75,36 @@ def cases(rng, tier, stats):
         out.append(layouts_case("program-layouts", G.toks_stmts(prog), r))
     stats["programs"] = m
     stats["layouts_per_program"] = 6
+    # layouts and comments inside imported modules (the first token of a module file may be a comment)
+    mm = 1500 if tier == "thorough" else 80
+    for i in range(mm):
+        r = rng.fork(f"mod{i}")
+        pg = proggen.ProgGen(r, max_depth=2)
+        mod_toks = G.toks_stmts(pg.program(r.range(2, 5)))
+        main_prog = [("print", G.s("আগে")), ("import", "ম", "lib/m.pakhi"), ("print", G.s("পরে"))]
+        main_src = G.source(main_prog, "lines")
+        variants = [("plain", G.render(mod_toks, "lines")), ("minimal", G.render(mod_toks, "minimal")),
+                    ("header-comment", "# শিরোনাম \\# মন্তব্য\nদুই লাইন #\n" + G.render(mod_toks, "lines")),
+                    ("comments", G.render(with_comments(mod_toks, r), "lines")),
+                    ("comments-wild", G.render(with_comments(mod_toks, r), "wild", r)),
+                    ("trailing-comment", G.render(mod_toks, "lines") + "# শেষে #")]
+        lines = []
+        names = []
+        for nme, txt in variants:
+            lines += ["RESET", "FILE " + C.hx("@ROOT@/lib/m.pakhi") + " " + C.hx(txt), run_req(main_src)]
+            names.append(nme)
+        def orc(case, impl, model, names=names):
+            runs = [C.RunAns(impl[3 * k + 2]) for k in range(len(names))]
+            probs = []
+            for k, a in enumerate(runs[1:], 1):
+                if a.out != runs[0].out or a.kind != runs[0].kind or (a.kind == "err" and a.err_class() != runs[0].err_class()):
+                    probs.append(f"module layout {names[k]}: prints {a.out!r} / {' '.join(a.status[:2])}, plain layout prints {runs[0].out!r} / {' '.join(runs[0].status[:2])}")
+            return probs[:2]
+        out.append(C.Case("module-layouts", lines, cmp_run(), orc, info={"layouts": names, "module": variants[3][1][:300]}))
+    stats["module_layout_programs"] = mm
     return out
+
+
+def fix_root(cases_, root):
+    for c in cases_:
+        c.lines = [l if not l.startswith("FILE ") else "FILE " + C.hx(C.unhx(l.split(" ")[1]).replace("@ROOT@", root)) + " " + l.split(" ")[2] for l in c.lines]
